@@ -133,8 +133,8 @@ inductive Missing (ctx : Ctx) : Tgt → Str → Prop where
   | sentence {cf cap ap sep cs f} : Missing ctx (.all cs) f → Missing ctx (.node (.sentence cf cap ap sep cs)) f
   | tag {n cs f} : Missing ctx (.all cs) f → Missing ctx (.node (.tag n cs)) f
   | namePart {b tie abbr cs f} : Missing ctx (.all cs) f → Missing ctx (.node (.namePart b tie abbr cs)) f
-  | hrefKids {url ext cs f} : Missing ctx (.all cs) f → Missing ctx (.node (.href url ext cs)) f
-  | hrefUrl {url ext cs f} : (∃ fuel parts, evalList fuel ctx cs = .ok parts) → Missing ctx (.node url) f →
+  | hrefUrl {url ext cs f} : Missing ctx (.node url) f → Missing ctx (.node (.href url ext cs)) f
+  | hrefKids {url ext cs f} : (∃ fuel u, eval fuel ctx url = .ok u) → Missing ctx (.all cs) f →
       Missing ctx (.node (.href url ext cs)) f
   | firstOf {cs f} : Missing ctx (.first cs) f → Missing ctx (.node (.firstOf cs)) f
   | allHead {t ts f} : Missing ctx (.node t) f → Missing ctx (.all (t :: ts)) f
